@@ -261,6 +261,16 @@ where
     ) -> Result<WriteEvent, Self::Error> {
         let _summary = self.summary().await?;
 
+        // Replace an existing row with the same identifier,
+        // appending would leave two rows for the secret and later
+        // updates or deletes would only affect the first one
+        let (_, existing) = self.find_row(&id).await?;
+        if existing.is_some() {
+            let row = VaultCommit(commit, secret.clone());
+            self.update_secret(&id, commit, secret).await?;
+            return Ok(WriteEvent::CreateSecret(id, row));
+        }
+
         // Encode the row into a buffer
         let mut buffer = Vec::new();
         let mut writer =
